@@ -118,6 +118,7 @@ class FunctionInfo:
     cls: Optional[ClassInfo] = None
     parent: Optional["FunctionInfo"] = None
     nested: Dict[str, "FunctionInfo"] = field(default_factory=dict)
+    nested_all: Dict[str, List["FunctionInfo"]] = field(default_factory=dict)
     decorators: List[str] = field(default_factory=list)
     _locals: Optional[set] = None
 
@@ -309,6 +310,7 @@ class CallTarget:
     bound: bool = False  # first parameter is implicit (self/cls)
     receiver: Optional[ast.AST] = None
     cls: Optional[ClassInfo] = None
+    cha: bool = False
 
     def __repr__(self):
         if self.kind == "repo":
@@ -317,6 +319,18 @@ class CallTarget:
 
 
 BUILTINS = set(dir(builtins))
+
+COMMON_METHODS = (
+    set(dir(list)) | set(dir(dict)) | set(dir(str)) | set(dir(set)) | set(dir(tuple))
+    | {
+        "reshape", "ravel", "transpose", "squeeze", "view", "astype", "mean", "sum", "prod", "max", "min",
+        "tolist", "any", "all", "dot", "flatten", "fill", "item", "argmax", "argmin", "clip", "conj",
+        "cumsum", "std", "var", "round", "nonzero", "repeat", "take", "put", "swapaxes", "trace",
+        "random_sample", "randn", "normal", "randint", "choice", "rand", "gamma", "uniform", "permutation",
+        "shuffle", "seed", "get_state", "set_state", "warn", "local", "get", "fit", "transform",
+        "predict", "fit_transform", "to_tensor", "to_vec", "to_unfolded", "norm", "normalize", "mode_dot",
+    }
+)
 
 
 # ---------------------------------------------------------------------------------
@@ -331,6 +345,8 @@ class Repo:
         self.functions: Dict[str, FunctionInfo] = {}
         self.classes: Dict[str, ClassInfo] = {}
         self._func_of_node: Dict[int, FunctionInfo] = {}
+        self._rc_cache = {}
+        self._li_cache = {}
         self._load()
         self._bind()
         self._special()
@@ -412,7 +428,14 @@ class Repo:
                 f = d.func
                 decos.append(f.id if isinstance(f, ast.Name) else getattr(f, "attr", "?"))
         fi = FunctionInfo(qn, node.name, m, node, cls=cls, parent=parent, decorators=decos)
-        self.functions[qn] = fi
+        if qn in self.functions:
+            # same name defined twice in one scope (e.g. a closure defined in both arms
+            # of an if): keep every definition addressable
+            k = 2
+            while f"{qn}#{k}" in self.functions:
+                k += 1
+            fi.qname = f"{qn}#{k}"
+        self.functions[fi.qname] = fi
         self._func_of_node[id(node)] = fi
         # nested defs (own scope only)
         for sub in _own_scope_nodes(node):
@@ -421,6 +444,7 @@ class Repo:
                     m, sub, cls=None, parent=fi, prefix=f"{qn}.<locals>"
                 )
                 fi.nested[sub.name] = nf
+                fi.nested_all.setdefault(sub.name, []).append(nf)
         return fi
 
     def _collect_class(self, m, node, prefix):
@@ -710,6 +734,12 @@ class Repo:
         return None
 
     def _local_import(self, f: FunctionInfo, name: str) -> Optional[Ent]:
+        k = (f.qname, name)
+        if k not in self._li_cache:
+            self._li_cache[k] = self._local_import_uncached(f, name)
+        return self._li_cache[k]
+
+    def _local_import_uncached(self, f: FunctionInfo, name: str) -> Optional[Ent]:
         for n in _own_scope_nodes(f.node):
             if isinstance(n, ast.ImportFrom):
                 for a in n.names:
@@ -728,8 +758,23 @@ class Repo:
         return None
 
     def resolve_call(self, fi: Optional[FunctionInfo], m: Module, call: ast.Call) -> CallTarget:
+        key = id(call)
+        r = self._rc_cache.get(key)
+        if r is None or r[0] is not call:
+            r = (call, self._resolve_call(fi, m, call))
+            self._rc_cache[key] = r
+        return r[1]
+
+    def _resolve_call(self, fi: Optional[FunctionInfo], m: Module, call: ast.Call) -> CallTarget:
         fn = call.func
         ent = self.resolve_expr(fi, m, fn)
+        if ent is not None and ent.kind == "func" and isinstance(fn, ast.Name):
+            # a nested function defined more than once: every definition is a candidate
+            f = fi
+            while f is not None:
+                if fn.id in f.nested_all and len(f.nested_all[fn.id]) > 1:
+                    return CallTarget("repo", list(f.nested_all[fn.id]), fn.id)
+                f = f.parent
         if ent is not None:
             if ent.kind == "func":
                 f: FunctionInfo = ent.value
@@ -764,6 +809,14 @@ class Repo:
             if ent.kind == "var":
                 return CallTarget("local", [], ast.unparse(fn))
         if isinstance(fn, ast.Attribute):
+            # class-hierarchy analysis on names: a method name defined by exactly one
+            # repository class (and not a container / ndarray / str method) resolves to it
+            if fn.attr not in COMMON_METHODS and not fn.attr.startswith("__"):
+                cands = [c.methods[fn.attr] for c in self.classes.values() if fn.attr in c.methods]
+                if len(cands) == 1 and cands[0].binds_first:
+                    ct = CallTarget("repo", cands, fn.attr, bound=True, receiver=fn.value)
+                    ct.cha = True
+                    return ct
             return CallTarget("method", [], fn.attr, receiver=fn.value)
         if isinstance(fn, ast.Name):
             f = fi
